@@ -581,6 +581,13 @@ func (r *ChunkReader) NextChunk() (Chunk, error) {
 			}
 		}
 		for n := int32(r.currNode.arity()); r.nextChunk < n; {
+			if i := int(r.nextChunk); !r.currNode.isLeaf(i) &&
+				!r.currNode.dOffRange(i, r.currNodeDBias).Empty() {
+				// The i'th element is a branch node, not a leaf node. Resolve
+				// r.seekPosition (which equals DOff[i]) again, from the root
+				// node, to load, validate and descend into that branch node.
+				break
+			}
 			c := r.currNode.chunk(int(r.nextChunk), r.currNodeCBias, r.currNodeDBias)
 			r.nextChunk++
 			r.seekPosition = c.DRange[1]
